@@ -24,9 +24,11 @@ FullValues == {<<"ক">>, <<"র">>, <<"আ">>, <<HASANTA>>, <<CHANDRA>>, <<AULE
 \* C13: deeper histories over the characters the reph scan distinguishes
 RephValues == {<<"ক">>, <<"র">>, <<"আ">>, <<"া">>, <<"ি">>, <<HASANTA>>, <<CHANDRA>>, <<"(">>, <<ZWNJ>>,
                REPH, ROFOLA, ZOFOLA}
-Values == IF Alphabet = "full" THEN FullValues ELSE RephValues
+\* deeper histories over the characters the priority chain itself distinguishes (rule interactions need four and more keys)
+SmallValues == {<<"ক">>, <<"া">>, <<"ি">>, <<"ু">>, <<HASANTA>>, <<CHANDRA>>, <<"১">>, <<"(">>}
+Values == IF Alphabet = "full" THEN FullValues ELSE IF Alphabet = "small" THEN SmallValues ELSE RephValues
 
-OptSet == IF Alphabet = "full"
+OptSet == IF Alphabet \in {"full", "small"}
           THEN [vowel : BOOLEAN, chandra : BOOLEAN, kar : BOOLEAN, reph : BOOLEAN, karorder : {FALSE}]
           \* C13 quantifies over all other option settings, old vowel-sign order included (a sign may be waiting, hidden)
           ELSE [vowel : BOOLEAN, chandra : BOOLEAN, kar : BOOLEAN, reph : {TRUE}, karorder : BOOLEAN]
@@ -63,7 +65,7 @@ AutoVowelInv == o.vowel /\ ~o.reph /\ ~o.chandra =>
 
 \* "full": every maximal history.  "reph": every history that ends with the reph key (each reph event of
 \* each history is then replayed exactly once, as the last step of its prefix).
-EmitWhen == IF Alphabet = "full" THEN Len(h) = Depth \/ s.crash
+EmitWhen == IF Alphabet \in {"full", "small"} THEN Len(h) = Depth \/ s.crash
             ELSE h # <<>> /\ h[Len(h)].op = "key" /\ h[Len(h)].val = REPH
 Emit == EmitWhen =>
            PrintT(<<"REPLAY", ToJson([mc |-> "MC_Fixed", o |-> o, steps |-> h])>>)
